@@ -17,6 +17,7 @@ from core.guards import equivalent as g_equivalent
 from core.guards import f_and as g_and
 from core.guards import f_not as g_not
 from core.guards import f_or as g_or
+from core.guards import satisfiable as g_satisfiable
 
 from .c07_sym import COND_TAGS, FALSE, NONE, TRUE, WRAPPERS, c_and, c_not, c_or
 
@@ -215,7 +216,9 @@ class Norm:
                 out.append((elt[3], fors, self.simp(c_and([c, c_not(elt[1])]))))
                 continue
             out.append((elt, fors, c))
-        out = [g for g in out if g[2] != FALSE]
+        # inside an iteration over a source, that source is not empty
+        out = [(e, f, self.simp(nonempty_sources(c, f))) if f and c != TRUE else (e, f, c) for e, f, c in out]
+        out = [g for g in out if g[2] != FALSE and self.feasible(g)]
         if len(out) == 1:
             elt, fors, c = out[0]
             if c == TRUE and len(fors) == 1:
@@ -225,6 +228,18 @@ class Norm:
                 if src[0] == "keys" and elt == ("pair", v, ("valof", src[1], v)):
                     return src[1]
         return ("bag", tuple(("g", e, f, c) for e, f, c in out))
+
+    @staticmethod
+    def feasible(g) -> bool:
+        """False when the condition of a generator is contradictory (decided over the canonical text of its atoms)."""
+        _e, fors, c = g
+        if c[0] != "and":
+            return True
+        names = {v: f"v{i}" for i, (v, _s) in enumerate(fors)}
+        try:
+            return g_satisfiable(to_formula(c, names, len(fors)))
+        except Exception:  # noqa: BLE001 - too many atoms
+            return True
 
     def atomic(self, n):
         v = self.fresh()
@@ -496,6 +511,27 @@ class Norm:
         if key in self.assume:
             return ("const", self.assume[key])
         return c
+
+
+def nonempty_sources(c, fors):
+    known = set()
+    for _v, src in fors:
+        known.add(("truthy", src))
+        if src[0] == "keys":
+            known.add(("truthy", src[1]))
+
+    def walk(x):
+        if x in known:
+            return TRUE
+        if x[0] == "not":
+            return c_not(walk(x[1]))
+        if x[0] == "and":
+            return c_and([walk(y) for y in x[1]])
+        if x[0] == "or":
+            return c_or([walk(y) for y in x[1]])
+        return x
+
+    return walk(c)
 
 
 def rooted_at_caught(x) -> bool:
